@@ -335,8 +335,11 @@ def main(argv=None):
         reported.add(cls)
         spec = dict(s["spec"])
         spec["mode"] = "replay"
-        spec["ops"] = s["ops"]
-        spec["schedule"] = s.get("schedule")
+        spec["ops"] = v.get("ops_override") or s["ops"]
+        spec["schedule"] = s.get("schedule") if not v.get("ops_override") else None
+        if v.get("ops_override"):
+            v = dict(v)
+            v["op"] = len(spec["ops"]) - 1 if v["op"] >= len(spec["ops"]) else v["op"]
         final = spec
         viol = v
         if not a.no_shrink:
